@@ -6,6 +6,10 @@ hooks_commits = subprocess.run(["git","-C","/repo","log","--format=%h %s"],captu
 hook_commits = [l.split()[0] for l in hooks_commits if l.split(" ",1)[1].startswith("verif:")]
 
 CHECKS = {
+ "C13": dict(engine="E5 dap", category="model_checking", technique="explicit-state exploration of DAP breakpoint-request histories on the real adapter, oracle = reference trace filtered by the latest sets and option semantics",
+   text="Histories of initialize/launch/configurationDone/continue/restart interleaved with setBreakpoints (subsets of two lines x {plain, condition true/false/data-query, hitCondition 2 / >=2, logMessage}), setFunctionBreakpoints and setInstructionBreakpoints, each tried before launch, before configurationDone, while stopped and after restart (depth 5 quick / 7); after every resume the stop on the wire and the pc read from /proc must be the next arrival of the reference trace at a location of the latest sets that the options allow; logpoints produce one output per hit; verified = a patch exists in /proc/pid/mem.",
+   note="Hit counters across a restart are not judged (unspecified). setDataBreakpoints is not in the alphabet (no hardware delivery in this VM). Conditions are the adapter's language: literals and data queries judged by truthiness.",
+   design="3/C13"),
  "C01": dict(engine="E2 e2e", category="model_checking", technique="explicit-state exploration of debugger command histories on the real Debugger and kernel, reference = independent single-step trace",
    text="Every history over {start/continue, add/remove of 3 candidate breakpoints (raw address, the instruction executed right after it, file:line or function)} up to depth 4 (quick) / 6 (thorough) is executed by the real Debugger over generated libc-free Rust programs (loop, recursion, generics, closure); after each continue the stop must be exactly the next arrival of the reference single-step trace at an enabled address (reported pc = PTRACE_GETREGS pc = located trace index), hooks fire once, and the run ends with the native exit code.",
    note="Trusted: reference tracer (own ptrace single-stepper, 3 runs agree), state location by (pc, sp, register hash, stack+data hash). Which address a file:line/function designator resolves to is taken from the debugger's answer (that choice is C04's subject). PIE only; quick = 4 programs x 2 toolchains.",
@@ -26,9 +30,9 @@ CHECKS = {
    text="Every Dqe AST up to operator depth 3 (quick) / 4 (thorough) over 3 bases x 19 operators, and every index literal of nesting <= 2, is printed by an independent printer in two renderings and must parse back to the same AST with the real chumsky parser. This decides the 'parsing is a function of the text / documented precedence' half of the property exhaustively within the bound.",
    note="Trusted: the harness's printer implements the documented precedence. The 'meaning' half (evaluation against program values) is decided by the e2e part when present in evidence.parts; if absent it is not claimed.",
    design="3/C07"),
- "C12": dict(engine="E3 sched", category="model_checking", technique="stateless model checking: preemption-bounded exhaustive schedule enumeration of the real session + forwarder threads under an owned scheduler",
-   text="All interleavings (up to the stated preemption bound) of the real DebugSession::run thread and the two real output-forwarder threads are executed; every wire log is checked for seq = 1,2,3.. in wire order, exactly one matching response per request, every output line exactly once.",
-   note="Trusted: schedule points bracket every sequence-number allocation and every transport lock; the transport mutex state is read with try_lock (ground truth). Harness sizes are in evidence.bounds.",
+ "C12": dict(engine="E3 sched + E5 dap", category="model_checking", technique="stateless model checking: preemption-bounded exhaustive schedule enumeration of the real session + forwarder threads under an owned scheduler",
+   text="(schedules) All interleavings, up to the stated preemption bound, of the real DebugSession::run thread and the two real output-forwarder threads are executed; every wire log is checked for seq = 1,2,3.. in wire order, exactly one matching response per request, every output line exactly once. (histories) Explicit-state search over DAP request histories: 34 request symbols (valid, missing and ill-typed arguments, out of order, repeated, cancel-ahead) are executed from every distinct canonical state of the real adapter with a real debuggee, up to 4 (quick) / 6 state-changing steps; every message is checked by the protocol monitor M1-M11 (one response per request, contiguous seq, resume outcomes, thread/exit/terminated ordering, nothing after terminated, connection stays up).",
+   note="Trusted: schedule points bracket every sequence-number allocation and every transport lock; the transport mutex state is read with try_lock (ground truth). Requests that leave the canonical state unchanged are chained inside one session. Envelope-level garbage belongs to C08. Three genuine defects are recorded as known findings.",
    design="2/E3, 3/C12, App.B"),
  "C14": dict(engine="E4 pure", category="model_checking", technique="explicit-state BFS over the full reachable DR7 state space of the real register-encoding code",
    text="All 1.68M DR7 images reachable from 0 under the 48 configure/enable operations are visited; in every state the image equals an independently written Intel-SDM encoder applied to a reference slot table, and dr_enabled agrees.",
@@ -71,6 +75,7 @@ m = {
  "engines": [
    {"name":"E3 sched","path":"/verif/harness/src/sched.rs","serves_properties":["C12"],"kind_free_text":"hand-rolled CHESS: real threads parked at feature-gated schedule points, preemption-bounded DFS, worker subprocess per subtree"},
    {"name":"E2 e2e","path":"/verif/harness/src/{e2x,e2w,isession,reftrace,dwarfref,corpus,c01}.rs","serves_properties":["C01","C02","C03","C05"],"kind_free_text":"explicit-state exploration of command histories: one interactive worker process per session running the real Debugger over generated libc-free debuggees; reference single-step tracer; canonical-state deduplication"},
+   {"name":"E5 dap","path":"/verif/harness/src/{dapx,dapw,c12}.rs","serves_properties":["C12","C13"],"kind_free_text":"explicit-state exploration of DAP request histories: the real DebugSession::run on a thread inside one worker process per session, in-memory transport, real debuggee; protocol monitor + reference-trace oracle"},
    {"name":"E4 pure","path":"/verif/harness/src/{c07,c14,c17}.rs","serves_properties":["C07","C14","C17"],"kind_free_text":"bounded-exhaustive / explicit-state exploration of in-process components against reference models"},
  ],
  "checks": checks,
